@@ -203,7 +203,15 @@ class ConvexPolygon(Polygon):
         num_verts = len(self.vertices)
 
         # Rearrange the verts so that we start with the lowest angle
-        verts, _ = _align_points_by_normal(self.normal, self.vertices - self.center)
+        verts = self.vertices - self.center
+        if np.allclose(self.normal, (0, 0, -1)):
+            # The polygon lies in the xy plane and is stored clockwise as seen
+            # from +z. The angles are relative to the x axis of that plane, so the
+            # coordinates stay as they are and only the traversal is reversed
+            # (turning the polygon over would measure the angles in a mirror image).
+            verts = verts[::-1]
+        else:
+            verts, _ = _align_points_by_normal(self.normal, verts)
         angles_to_vertices = np.arctan2(verts[:, 1], verts[:, 0])
         np.mod(angles_to_vertices, 2 * np.pi, out=angles_to_vertices)
 
